@@ -266,28 +266,48 @@ def raise_conditions(w: Walker):
     return out
 
 
+def empty_input_test(g, pol) -> bool:
+    """`len(arg) == 0` / `arg is None` / `arg.size == 0` / `not len(arg)`: the test of an empty argument."""
+    t = g if pol else mk_not(g)
+    def sized(x):
+        if x[0] == "sel" and x[1][0] == "cmp" and x[1][1] in ("is", "is not") and ("const", None) in x[1][2:] \
+                and ("const", 0) in x[2:4]:
+            other = x[3] if x[2] == ("const", 0) else x[2]  # 0 if arg is None else len(arg)
+            return sized(other)
+        return (x[0] == "call" and x[1] == ("builtin", "len") and len(x[2]) == 1 and x[2][0][0] == "param") or \
+            (x[0] == "attr" and x[2] == "size" and x[1][0] == "param") or \
+            (x[0] == "idx" and x[1][0] == "attr" and x[1][2] == "shape" and x[1][1][0] == "param" and x[2] == ("const", 0))
+    if t[0] == "cmp" and t[1] == "==" and ((sized(t[2]) and t[3] == ("const", 0)) or (sized(t[3]) and t[2] == ("const", 0))):
+        return True
+    if t[0] == "cmp" and t[1] in ("<", "<=") and sized(t[2]) and t[3] in (("const", 1), ("const", 0)):
+        return t[1] == "<" or t[3] == ("const", 0)
+    if t[0] == "cmp" and t[1] == "is" and {t[2][0], t[3][0]} == {"param", "const"} and ("const", None) in (t[2], t[3]):
+        return True
+    if t[0] == "not" and sized(t[1]):
+        return True
+    if t[0] == "or":
+        return all(empty_input_test(x, True) for x in t[1])
+    return False
+
+
+def main_returns(w: Walker):
+    """Returns of the entry function, without early exits taken for an empty argument (`if len(X) == 0: return []`)."""
+    out = []
+    for e in w.events:
+        if e.kind == "return" and e.fn is w.entry:
+            if e.guards and not e.loops and empty_input_test(*e.guards[-1]) and all(
+                    any((g, not pol) in r.guards for r in w.events if r.kind == "raise") for g, pol in e.guards[:-1]):
+                continue
+            out.append(e)
+    return out
+
+
 def check_entry_unconditional(rep, w: Walker, guards, rule: str, what: str, line: int = 0) -> None:
     """`guards` dominate a schema construct: each must be the negation of a validation test that raises."""
     rc = raise_conditions(w)
     exits = [e for e in w.events if e.kind == "raise" or (e.kind == "return" and e.fn is w.entry and not e.loops)]
 
-    def empty_input(g, pol) -> bool:
-        """`len(arg) == 0` / `arg is None` / `arg.size == 0` / `not len(arg)`: the test of an empty argument."""
-        t = g if pol else mk_not(g)
-        sized = lambda x: (x[0] == "call" and x[1] == ("builtin", "len") and len(x[2]) == 1 and x[2][0][0] == "param") or \
-            (x[0] == "attr" and x[2] == "size" and x[1][0] == "param") or \
-            (x[0] == "idx" and x[1][0] == "attr" and x[1][2] == "shape" and x[1][1][0] == "param" and x[2] == ("const", 0))
-        if t[0] == "cmp" and t[1] == "==" and ((sized(t[2]) and t[3] == ("const", 0)) or (sized(t[3]) and t[2] == ("const", 0))):
-            return True
-        if t[0] == "cmp" and t[1] in ("<", "<=") and sized(t[2]) and t[3] in (("const", 1), ("const", 0)):
-            return t[1] == "<" or t[3] == ("const", 0)
-        if t[0] == "cmp" and t[1] == "is" and {t[2][0], t[3][0]} == {"param", "const"} and ("const", None) in (t[2], t[3]):
-            return True
-        if t[0] == "not" and sized(t[1]):
-            return True
-        if t[0] == "or":
-            return all(empty_input(x, True) for x in t[1])
-        return False
+    empty_input = empty_input_test
 
     def validated(g, pol) -> bool:
         # the other arm of this very test leaves the function: by raising, or - for an empty argument - by returning
